@@ -112,7 +112,21 @@ void run_c14(sim::RunCtx& ctx) {
         }
         if ((dh >> 32) % 12 == 0) {       // verification off: only safety is required (ASan / guard pages / tick budget)
             auto o = exec::open_image(dpath, mode, false);
-            if (o->r) { exec::ReadChunk rc = exec::read_chunk_whole(o->r, pg.rg, pg.col, c.type, c.tlen, c.max_def, (int64_t)want.entries()); (void)rc; }
+            if (o->r) {
+                exec::ReadChunk rc = exec::read_chunk_whole(o->r, pg.rg, pg.col, c.type, c.tlen, c.max_def, (int64_t)want.entries());
+                // memory-safe also means: whatever is handed back was written by the library - the same read with different garbage in fresh heap blocks agrees
+                o.reset();
+                uint8_t dirt0 = sim::allocplan.dirt; sim::allocplan.dirt = (uint8_t)(dirt0 ^ 0x5A);
+                auto o2 = exec::open_image(dpath, mode, false);
+                if (o2->r) {
+                    exec::ReadChunk rc2 = exec::read_chunk_whole(o2->r, pg.rg, pg.col, c.type, c.tlen, c.max_def, (int64_t)want.entries());
+                    sim::allocplan.dirt = dirt0;
+                    SIM_CHECK(rc.ok == rc2.ok && rc.ch.def == rc2.ch.def && rc.ch.rep == rc2.ch.rep && rc.ch.vals == rc2.ch.vals, "uninitialised.result_depends_on_heap_garbage",
+                              "%s rg%d col%d (%s): %s at body offset %llu, verification off: two reads of the same damaged file returned different levels/values (%zu vs %zu entries) when fresh heap memory held different garbage",
+                              exec::mode_name(mode), pg.rg, pg.col, type_name(c.type), KN[kind], (unsigned long long)(kind == 0 ? pos / 8 : pos), rc.ch.def.size(), rc2.ch.def.size());
+                }
+                sim::allocplan.dirt = dirt0;
+            }
             SIM_COUNT("probe.damage_read_without_verification"); evals++;
         }
         SIM_COUNT(kind == 0 ? "fault.bitflip" : kind == 1 ? "fault.byteset" : "fault.burst");
@@ -137,7 +151,7 @@ namespace sim {
 void register_c14() {
     Property p;
     p.id = "C14"; p.level = "fault_enumeration";
-    p.rule = "per seeded image (carquet-written with all codecs and small pages, or peer-written with dictionary pages and zlib-computed CRCs) every page body is damaged in turn: every single bit (when page bytes <= 8 KiB, else the first/last 64 bytes of each page plus a 1/16 sample; quick tier: each bit in one transport in rotation and bit 0 of every byte in all three, thorough tier: every bit in all three), every byte set to a different seeded value x 3 transports, a seeded 2-32 bit burst at every byte offset x 3 transports, all with verify_checksums=true: no entry of the damaged page (for a dictionary page: of the chunk) may be delivered, everything delivered before is a correct prefix, and the read must end in an error; 1/24 of the damages also go through the batch reader, 1/12 are re-read with verification off (safety only); the undamaged image must verify in all transports, and in 1 run of 4 also when 2-4 caller tasks verify it at once on a cold library under a seeded schedule (lazy CRC tables); one evaluation = one damaged read";
+    p.rule = "per seeded image (carquet-written with all codecs and small pages, or peer-written with dictionary pages and zlib-computed CRCs) every page body is damaged in turn: every single bit (when page bytes <= 8 KiB, else the first/last 64 bytes of each page plus a 1/16 sample; quick tier: each bit in one transport in rotation and bit 0 of every byte in all three, thorough tier: every bit in all three), every byte set to a different seeded value x 3 transports, a seeded 2-32 bit burst at every byte offset x 3 transports, all with verify_checksums=true: no entry of the damaged page (for a dictionary page: of the chunk) may be delivered, everything delivered before is a correct prefix, and the read must end in an error; 1/24 of the damages also go through the batch reader, 1/12 are re-read with verification off (safety only: sanitizers, and two reads under different heap garbage must agree); the undamaged image must verify in all transports, and in 1 run of 4 also when 2-4 caller tasks verify it at once on a cold library under a seeded schedule (lazy CRC tables); one evaluation = one damaged read";
     p.quick_runs = 160; p.thorough_runs = 12000;
     p.run = run_c14; p.recheck = 12;
     p.assumptions = {"only pages that carry a CRC are damaged (carquet always writes one; the peer is forced to)",
